@@ -28,7 +28,7 @@ ASSUMPTIONS = ['generated body menu replaces random expressions',
                'reference model: R-store lookup + R-lang evaluation']
 
 BOUNDS = {'quick': dict(names=3, pairs=False, chain=6),
-          'thorough': dict(names=4, pairs=True, chain=8)}
+          'thorough': dict(names=4, pairs=False, chain=8, extra=(3, True))}
 ROLESETS = [(), ('x',), ('y',), ('x', 'y')]
 UNDEF = 'zz'
 
@@ -144,7 +144,16 @@ def plan(tier, seed):
     total = len(m) ** len(names)
     k = 32 if tier == 'quick' else 256
     jobs = [{'space': 'S1', 'lo': lo, 'hi': hi, 'tier': tier,
+             'names': b['names'], 'pairs': b['pairs'],
              'weight': (hi - lo)} for lo, hi in core.chunks(total, k)]
+    if b.get('extra'):
+        # second family: fewer names, but with the pairwise bodies
+        n2, p2 = b['extra']
+        names2 = 'abcd'[:n2]
+        total2 = len(menu(names2, p2)) ** n2
+        jobs += [{'space': 'S1', 'lo': lo, 'hi': hi, 'tier': tier,
+                  'names': n2, 'pairs': p2, 'weight': (hi - lo)}
+                 for lo, hi in core.chunks(total2, 128)]
     nlinks = 4 ** b['chain']
     for lo, hi in core.chunks(nlinks, 16 if tier == 'quick' else 64):
         jobs.append({'space': 'S3', 'lo': lo, 'hi': hi, 'tier': tier,
@@ -207,8 +216,8 @@ def run(job, seed):
     enf = world.bare_enforcer()
     b = BOUNDS[job['tier']]
     if job['space'] == 'S1':
-        names = 'abcd'[:b['names']]
-        m = menu(names, b['pairs'])
+        names = 'abcd'[:job['names']]
+        m = menu(names, job['pairs'])
         M = len(m)
         queries = list(names) + ['unknown']
         for idx in range(job['lo'], job['hi']):
